@@ -4,7 +4,9 @@ from .. import core, real, gen, e2e
 from ..leandrv import Driver
 
 MODULE = 'Bluebell.Props.C01'
-THEOREMS = ['Bluebell.C01_counterexample_attachment_prefix', 'Bluebell.C01_counterexample_marker_char', 'Bluebell.C01_counterexample_attr_name', 'Bluebell.C01_not_full', 'Bluebell.C01_maker_total', 'Bluebell.C01_normalise_total_on_roots', 'Bluebell.C01_eids_titles_total']
+THEOREMS = ['Bluebell.C01_counterexample_attachment_prefix', 'Bluebell.C01_counterexample_marker_char', 'Bluebell.C01_counterexample_attr_name', 'Bluebell.C01_not_full', 'Bluebell.C01_maker_total', 'Bluebell.C01_normalise_total_on_roots', 'Bluebell.C01_eids_titles_total',
+            'Bluebell.C01_grammar_certificate', 'Bluebell.C01_parser_terminates', 'Bluebell.C01_roots_are_rules',
+            'Bluebell.peg_terminates', 'Bluebell.eval_mono', 'Bluebell.eval_span']
 
 
 def run(ctx, info):
@@ -20,6 +22,13 @@ def run(ctx, info):
         cases.append(('\n'.join('  ' * i + 'PART %d' % i for i in range(d)) + '\n' + '  ' * d + 'x\n', 'act', ''))
         cases.append(('{{^' * d + 'x' + '}}' * d + '\n', 'doc', ''))
         cases.append(('**' + '//' * (d // 2) + 'x\n', 'statement', ''))
+    # every structural keyword with every kind of tail at line start (guards vs the rules they protect); the other
+    # keywords are sampled in the quick tier and complete in the thorough tier
+    kl = gen.keyword_lines(gen.CONTAINERS + gen.ATTACH)
+    rest = gen.keyword_lines([k for k in gen.ALL_KEYWORDS if k not in gen.CONTAINERS + gen.ATTACH])
+    kl += rest if ctx.tier == 'thorough' else rng.sample(rest, 500)
+    for t in kl:
+        cases.append((t, rng.choice(gen.ROOTS6), ''))
     reals = e2e.tie_convert(ctx, drv, cases, failures)
     nexc = 0
     known = {}
